@@ -13,13 +13,14 @@ import (
 // <handshake/>.
 
 type c16Conn struct {
-	StreamID string `json:"stream_id"`
-	Reply    string `json:"reply"`
-	Header   int    `json:"header"`
-	DelayMs  int    `json:"reply_delay_ms"`
-	Stanzas  int    `json:"stanzas_after"`
-	Trailing bool   `json:"stanzas_right_behind_the_reply,omitempty"` // the server goes on sending in the same write, whatever it answered
-	EndBy    string `json:"session_ended_by,omitempty"`               // how an established session ends before the next connection: close | cut | stream-error
+	StreamID     string `json:"stream_id"`
+	Reply        string `json:"reply"`
+	Header       int    `json:"header"`
+	DelayMs      int    `json:"reply_delay_ms"`
+	Stanzas      int    `json:"stanzas_after"`
+	Trailing     bool   `json:"stanzas_right_behind_the_reply,omitempty"` // the server goes on sending in the same write, whatever it answered
+	EndBy        string `json:"session_ended_by,omitempty"`               // how an established session ends before the next connection: close | cut | stream-error | disconnect (the application's)
+	RefusedAfter bool   `json:"then_an_attempt_whose_dial_is_refused,omitempty"`
 }
 
 type c16Scenario struct {
@@ -79,7 +80,9 @@ func runC16(e *Engine, g G, o RunOpt) RunInfo {
 		c.DelayMs = []int{0, 0, 20, 3000}[g.N("delay", 4)]
 		c.Stanzas = g.Range("stanzas", 0, 4)
 		c.Trailing = g.Pct("trailing", 30)
-		c.EndBy = []string{"close", "cut", "stream-error"}[g.N("endby", 3)]
+		c.EndBy = []string{"close", "cut", "stream-error", "disconnect"}[g.N("endby", 4)]
+		// before the next connection, an attempt that does not get as far as the handshake (the dial is refused)
+		c.RefusedAfter = g.Pct("refused-attempt-after", 30)
 		sc.Conns = append(sc.Conns, c)
 	}
 	sc.ReconnectOnStreamError = g.Pct("reconnect-on-stream-error", 40)
@@ -103,6 +106,7 @@ func runC16(e *Engine, g G, o RunOpt) RunInfo {
 		reached bool
 	}
 	atts := make([]*attempt, len(sc.Conns))
+	refuseNext := false
 	var w *CompW
 	e.Run(func() {
 		srv := NewServer(e, "comp."+SimDomain)
@@ -162,6 +166,12 @@ func runC16(e *Engine, g G, o RunOpt) RunInfo {
 				return "<handshake xmlns='" + nsSASL + "'/>"
 			}
 			return "" // close
+		}
+		e.Net.DialPlan = func(idx int) Dial {
+			if refuseNext {
+				return DialRefuse
+			}
+			return DialAccept
 		}
 		w = NewCompW(e, sc.Secret)
 		w.CatchAll()
@@ -242,11 +252,35 @@ func runC16(e *Engine, g G, o RunOpt) RunInfo {
 				case c.EndBy == "cut":
 					conn.Pipe.Cli.CutAt = conn.End.TotalWritten
 					conn.Pipe.Cli.CutErr = io.EOF
+				case c.EndBy == "disconnect":
+					e.Call("Component.Disconnect", func() error { w.Comp.Disconnect(); return nil })
 				default:
 					conn.CloseGracefully()
 				}
 			}
 			e.Sleep(20 * time.Second)
+			if c.RefusedAfter && !handlerDid {
+				// An attempt that fails before any handshake: whatever the state was, no <handshake/> was
+				// received on it - the component is not established, and says so.
+				refuseNext = true
+				evBefore := len(w.Events)
+				rerr, _ := e.Call("Component.Connect (dial refused)", w.Comp.Connect)
+				refuseNext = false
+				st := xmpp.VerifComponentState(w.Comp)
+				if rerr == nil {
+					e.Violate("C16", "established-without-handshake:dial-refused", "after connection #%d (ended by %s): the dial was refused but Connect returned nil", i, c.EndBy)
+				}
+				if st == xmpp.StateSessionEstablished {
+					e.Violate("C16", "state-established-without-handshake:dial-refused", "after connection #%d (ended by %s): the dial of the next attempt was refused (Connect: %v) and the state is SessionEstablished", i, c.EndBy, rerr)
+				}
+				for _, ev := range w.Events[evBefore:] {
+					if ev.State == xmpp.StateSessionEstablished {
+						e.Violate("C16", "established-announced-without-handshake:dial-refused", "after connection #%d: SessionEstablished announced by an attempt whose dial was refused", i)
+					}
+				}
+				e.Probe("c16.attempt_with_refused_dial")
+				e.Sleep(20 * time.Second)
+			}
 		}
 	})
 	info := RunInfo{Scenario: sc}
